@@ -203,6 +203,8 @@ def apply_api(api: str, m: onnx.ModelProto, opts: dict) -> onnx.ModelProto:
         return mc
     if api == "rewrite":
         return rw.rewrite(mc)
+    if api == "rewrite_custom":
+        return rw.rewrite(mc, pattern_rewrite_rules=[_custom_rules()[opts["kind"]]])
     if api == "remove_unused_nodes":
         opt.remove_unused_nodes(mc)
         return mc
@@ -430,6 +432,126 @@ def classify_c04d7(m, api, opts, detail, rng, init_inputs) -> bool:
         cls.call = orig_call
 
 
+# ----------------------------------------------------------------------------- C04: rules that introduce a new domain
+
+
+def _custom_rules():
+    from onnxscript.rewriter import pattern
+
+    def mm(op, a, b):
+        return op.MatMul(a, b)
+
+    def fused_mm(op, a, b):
+        return op.FusedMatMul(a, b, _domain="com.microsoft")
+
+    def gelu(op, x):
+        return op.Gelu(x)
+
+    def ms_gelu(op, x):
+        return op.Gelu(x, _domain="com.microsoft")
+
+    return {"matmul": pattern.RewriteRule(mm, fused_mm), "gelu": pattern.RewriteRule(gelu, ms_gelu)}
+
+
+def _domain_model(kind: str, where: str, also_main: bool, rng):
+    """A model whose only match of rule `kind` sits at `where` (main | then | else | nested | function)."""
+    a, b_ = vi("a", TP.FLOAT, [2, 3]), vi("b", TP.FLOAT, [3, 3])
+    cond = vi("c", TP.BOOL, [])
+
+    def target(x, y, out):
+        if kind == "matmul":
+            return h.make_node("MatMul", [x, y], [out])
+        return h.make_node("Gelu", [x], [out])
+
+    def body(name, out, inner=None):
+        nodes = [target("a", "b", out + "_t"), h.make_node("Neg", [out + "_t"], [out])] if inner is None else inner
+        return h.make_graph(nodes, name, [], [vi(out, TP.FLOAT, [2, 3])])
+
+    plain = lambda name, out: h.make_graph([h.make_node("Abs", ["a"], [out])], name, [], [vi(out, TP.FLOAT, [2, 3])])  # noqa: E731
+    nodes, funcs = [], []
+    if also_main:
+        nodes.append(target("a", "b", "m0"))
+    if where == "main":
+        nodes += [target("a", "b", "m1"), h.make_node("Neg", ["m1"], ["y"])]
+    elif where in ("then", "else"):
+        tb = body("tb", "t1") if where == "then" else plain("tb", "t1")
+        eb = body("eb", "e1") if where == "else" else plain("eb", "e1")
+        nodes.append(h.make_node("If", ["c"], ["y"], then_branch=tb, else_branch=eb))
+    elif where == "nested":
+        inner = h.make_node("If", ["c"], ["n1"], then_branch=body("itb", "it1"), else_branch=plain("ieb", "ie1"))
+        tb = h.make_graph([inner, h.make_node("Neg", ["n1"], ["t1"])], "tb", [], [vi("t1", TP.FLOAT, [2, 3])])
+        nodes.append(h.make_node("If", ["c"], ["y"], then_branch=tb, else_branch=plain("eb", "e1")))
+    elif where == "function":
+        f = h.make_function("local", "F", ["p", "q"], ["r"], [target("p", "q", "r")], [h.make_opsetid("", 20)])
+        funcs.append(f)
+        nodes += [h.make_node("F", ["a", "b"], ["f1"], domain="local"), h.make_node("Neg", ["f1"], ["y"])]
+    outs = [vi("y", TP.FLOAT, [2, 3])] + ([vi("m0", TP.FLOAT, [2, 3])] if also_main else [])
+    g = h.make_graph(nodes, "g", [a, b_, cond], outs)
+    imports = [h.make_opsetid("", 20)] + ([h.make_opsetid("local", 1)] if funcs else [])
+    m = h.make_model(g, opset_imports=imports, ir_version=9, functions=funcs)
+    return m
+
+
+def custom_rule_stream(run: core.Run, stats: Counter):
+    """C04 clause "every domain used has an opset import": rewrite(model, [rule introducing com.microsoft]) on models whose
+    only match is in the main graph / an If branch / a nested If / a model-local function.  Returns failures."""
+    import onnxscript.rewriter as rw
+
+    rules = _custom_rules()
+    failures = []
+    for kind in ("matmul", "gelu"):
+        for where in ("main", "then", "else", "nested", "function"):
+            for also_main in (False, True):
+                m = _domain_model(kind, where, also_main, run.rng)
+                try:
+                    onnx.checker.check_model(m, full_check=True)
+                except Exception as e:
+                    raise core.Infra(f"custom-rule host model invalid: {kind}/{where}: {str(e)[:200]}")
+                stats["custom_rule_models"] += 1
+                desc = {"kind": kind, "where": where, "also_main": also_main, "model_b64": b64(m), "api": "rewrite_custom", "opts": {"kind": kind}}
+                try:
+                    mc = onnx.ModelProto()
+                    mc.CopyFrom(m)
+                    m2 = rw.rewrite(mc, pattern_rewrite_rules=[rules[kind]])
+                except Exception as e:
+                    failures.append((desc, f"rewrite(custom rule {kind}) raised {type(e).__name__}: {str(e)[:160]}"))
+                    continue
+                used = {n.domain for n in _all_nodes(m2.graph)} | {n.domain for f in m2.functions for n in f.node}
+                if "com.microsoft" in used:
+                    stats["custom_rule_fired"] += 1
+                d = None
+                try:
+                    onnx.checker.check_model(m2)
+                except Exception as e:
+                    d = f"checker rejects the result of rewrite(custom rule {kind}, match in {where}): {str(e).splitlines()[0][:200]}"
+                if d is None:
+                    w = L.scope_walk(m2)
+                    if w:
+                        d = f"walker on the result of rewrite(custom rule {kind}, match in {where}): {w}"
+                if d is None:
+                    feeds = [{"a": np.arange(6, dtype=np.float32).reshape(2, 3) - 2, "b": np.eye(3, dtype=np.float32) * 2,
+                              "c": np.array(cv)} for cv in (True, False)]
+                    sd = L.semantic_diff(m, m2, feeds)
+                    if sd:
+                        d = f"rewrite(custom rule {kind}, match in {where}): {sd}"
+                if d:
+                    failures.append((desc, d))
+    if stats["custom_rule_fired"] < 10:
+        raise core.Infra("custom-rule stream degenerated: the rules hardly fired")
+    return failures
+
+
+def _all_nodes(g):
+    for n in g.node:
+        yield n
+        for a in n.attribute:
+            if a.type == onnx.AttributeProto.GRAPH:
+                yield from _all_nodes(a.g)
+            elif a.type == onnx.AttributeProto.GRAPHS:
+                for sg in a.graphs:
+                    yield from _all_nodes(sg)
+
+
 def load_corpus(name: str):
     p = core.VERIF / "harness" / name
     return [json.loads(l) for l in p.read_text().splitlines() if l.strip()] if p.exists() else []
@@ -464,7 +586,7 @@ def compatible_sig(s0, s1) -> str | None:
     return None
 
 
-def judge_validity(m, api, opts, rng, init_inputs) -> str | None:
+def judge_validity(m, api, opts, rng, init_inputs, overrides=None) -> str | None:
     """C04: None, or the first clause that fails."""
     try:
         m2 = apply_api(api, m, opts)
@@ -486,9 +608,14 @@ def judge_validity(m, api, opts, rng, init_inputs) -> str | None:
             return f"{api}: initializer-input {n!r} lost its default (initializer removed, input kept)"
     if init_inputs:
         by = {t.name: nh.to_array(t) for t in m.graph.initializer}
-        ov = {n: (by[n] * 2 + 1).astype(by[n].dtype) for n in init_inputs}
+        ov = {n: (overrides[n] if overrides and n in overrides else
+                  np.asarray(by[n] * 2 + 1, dtype=by[n].dtype).reshape(by[n].shape)) for n in init_inputs}
         feeds = [G.feeds_for(m, rng, v, override=ov) for v in range(2)]
-        d = L.semantic_diff(m, m2, feeds)
+        d = L.semantic_diff(m, m2, feeds, must_run=overrides is not None)
         if d:
             return f"{api}: with overridden initializer-inputs {sorted(ov)}: {d}"
+        # … and with the defaults left in place
+        d = L.semantic_diff(m, m2, [G.feeds_for(m, rng, v) for v in range(2)])
+        if d:
+            return f"{api}: with the default initializer-inputs: {d}"
     return None
